@@ -492,7 +492,7 @@ def make_fn(fs: FnState, flavour: str) -> Any:
 class VLock:
     """Async context manager lock; blocking is communicated to the driver via tokens."""
 
-    def __init__(self, name: str = "lock", susp_enter: int = 0):
+    def __init__(self, name: str = "lock", susp_enter: int = 0, susp_exit: int = 0):
         self.name = name
         self.owner: Any = None
         self.acquisitions = 0
@@ -500,6 +500,7 @@ class VLock:
         self.releases = 0
         self.bad_release = 0
         self.susp_enter = susp_enter
+        self.susp_exit = susp_exit  # suspend after the lock was handed back (locks whose release is a checkpoint)
 
     async def __aenter__(self) -> "VLock":
         if self.susp_enter:
@@ -522,4 +523,6 @@ class VLock:
         CTX.ev("release", self.name, self.owner)
         self.owner = None
         self.releases += 1
+        if self.susp_exit:
+            await Suspend(("lock-post", self.name), self.susp_exit)
         return None
